@@ -736,6 +736,10 @@ pub fn literal_slot(kinds: &[Kind]) -> Vec<T> {
         T::Num(0.0),
         T::Num(f64::INFINITY),
         T::Num(f64::NEG_INFINITY),
+        T::Num(1e-20),
+        T::Num(5e-324),
+        T::Num(123456789012345680000.0),
+        T::Num(0.1 + 0.2),
         T::Num(-2.0),
         T::Bool(true),
         T::Null,
